@@ -39,6 +39,29 @@ def calendar_items(tier):
     return items
 
 
+def long_items(tier):
+    """ranges of one to three years from the first of a month (year-blocks, ISO week 1 / week 53 collisions, two
+    Decembers, leap days inside) - one item per start"""
+    months = [(y, m) for y in range(2014, 2022) for m in range(1, 13)]
+    if tier == 'quick':
+        months = [(y, m) for (y, m) in months if (y * 12 + m) % 5 == 0]
+    return [(datetime.date(y, m, 1).toordinal(), (366, 400, 735, 1100)) for y, m in months]
+
+
+def per_long_start(item):
+    d0 = datetime.date.fromordinal(item[0])
+    viols, n, nev = [], 0, 0
+    for k in item[1]:
+        d1 = d0 + datetime.timedelta(days=k)
+        for pre, post in ((False, False), (True, True)):
+            f, ne = check_range(ts(d0, (0, 0)), ts(d1, (23, 59)), pre, post)
+            n += 1
+            nev += ne
+            viols += f
+    return {'viols': viols[:6], 'execs': n, 'evals': n, 'nontrivial': True, 'outcome': None,
+            'counters': {'ranges': n, 'clock_events_checked': nev, 'long_ranges': n}}
+
+
 def check_range(start, end, pre, post):
     from qstrader.simulation.daily_bday import DailyBusinessDaySimulationEngine
     case = {'start': str(start), 'end': str(end), 'pre': pre, 'post': post}
@@ -118,6 +141,9 @@ def run(tier, res, is_known):
                   'last': str(datetime.date.fromordinal(its[-1][0])), 'n_days': QUICK_N if tier == 'quick' else THOROUGH_N}
     res.assumptions += ["end time-of-day is never before the start's (as the property's quantifier says)"]
     product(per_start, its, res, is_known, label='calendar', sample_every=97, chunk=4)
+    if any(not is_known(v) for v in res.violations):
+        return
+    product(per_long_start, long_items(tier), res, is_known, label='ranges of 1-3 years', chunk=1)
     res.transitions = res.extra.get('clock_events_checked', 0)
     res.states = res.extra.get('ranges', 0)
     shapes = res.extra.pop('shapes', set())
